@@ -578,7 +578,7 @@ Section Refinement.
     (x = OStop -> ph s' = PEnd /\ img_open s' = false /\ src_reset s' = true) /\
     (x = ORaise -> ph s' = PEnd /\ img_open s' = false).
   Proof.
-    intros s s' o x. destruct o as [|p| | |z]; simpl.
+    intros s s' o x. destruct o as [|p| | |z]; [unfold ImgIter.step|simpl..].
     - destruct (ph s); try (intros H _; revert H; first [apply p1_run_ends | apply p2_inner_ends]).
       intros _ H. contradiction.
     - destruct (negb _); [|destruct (ph s)]; intros H _; inversion H; subst; split; intros; discriminate.
